@@ -80,6 +80,8 @@ impl Clients {
         let client = Client::new(client_config, self, metrics.clone());
         match self.0.clients.entry(endpoint_id) {
             dashmap::Entry::Occupied(mut entry) => {
+                #[cfg(iroh_verif)]
+                iroh_dns::verif::pause(&format!("relay.register.locked:{endpoint_id}"));
                 let state = entry.get_mut();
                 let old_client = std::mem::replace(&mut state.active, client);
                 debug!(
@@ -93,6 +95,8 @@ impl Clients {
                 metrics.clients_inactive_added.inc();
             }
             dashmap::Entry::Vacant(entry) => {
+                #[cfg(iroh_verif)]
+                iroh_dns::verif::pause(&format!("relay.register.locked:{endpoint_id}"));
                 entry.insert(ClientState {
                     active: client,
                     inactive: Vec::new(),
